@@ -21,7 +21,7 @@ EXHAUSTIVE = {"quick": False, "thorough": True}
 
 K = 8
 OPS = ["connect", "connect-auth", "shell", "exec_out", "streaming_shell", "root", "reboot", "list", "stat", "pull", "pull-cb", "push"]
-STALLS = ["silence", "eof", "trickle", "other-traffic", "unexpected"]
+STALLS = ["silence", "eof", "trickle", "other-traffic", "unexpected", "partial"]
 TS = [None, 0, 0.5, -1, 3]
 RS = [0, 0.3, 2, -1, 10]
 XS = [None, 0, 1, 5]
@@ -144,7 +144,8 @@ class Staller(object):
         sess.core.bulk_read = self.read
         if kind == "eof":
             self.core.stall = "eof"
-        self.sim.stop_after = stop + (1 if kind == "trickle" else 0)
+        self.sim.stop_after = stop + (1 if kind in ("trickle", "partial") else 0)
+        self.partial_left = None
 
     def target_stream(self):
         live = [st for st in self.sim.all_streams if st in self.sim.streams.values() and not st.dead]
@@ -153,6 +154,28 @@ class Staller(object):
     def read(self, numbytes, timeout):
         sim, core = self.sim, self.core
         stalled = sim.emitted >= sim.stop_after and not sim.wirebuf
+        if self.kind == "partial":
+            # packet number `stop` is cut in the middle: its first half arrives, then silence
+            sim.wire_available(1)
+            if sim.emitted > self.stop and sim.wirebuf:
+                if self.partial_left is None:
+                    self.partial_left = max(1, len(sim.wirebuf) // 2)
+                if self.partial_left > 0:
+                    core._enter("read", numbytes)
+                    core.read_timeouts.append(("r", timeout))
+                    k = min(self.partial_left, numbytes)
+                    self.partial_left -= k
+                    return sim.wire_take(k)
+                self.reached = True
+                core._enter("read", numbytes)
+                core.read_timeouts.append(("r", timeout))
+                if timeout is None:
+                    raise transports.Hang("bulk_read(%d, None) in the middle of a packet of a silent device" % numbytes)
+                core.clock.advance(max(timeout, 0))
+                raise transports.TimeoutError_("partial: the rest of the packet never arrives")
+            if stalled:
+                self.reached = True
+            return self.orig(numbytes, timeout)
         if self.kind == "trickle":
             # the last packet (index stop) is delivered one byte per `pace` virtual seconds
             sim.wire_available(1)
@@ -214,6 +237,9 @@ def run_case(case):
         t_eff, r_eff, x_eff = effective(case, op)
         if not ref.ok:
             # with R <= 0 or X <= 0 the fault-free operation itself may legitimately time out (e.g. timeout_s=0 after the first chunk)
+            generous = case["R"] >= 0.3 and (case["X"] is None or case["X"] >= 1 or op not in ("shell", "exec_out", "root", "reboot")) and (case["T"] is None or case["T"] >= 0)
+            if ref.exc_name() in ("AdbTimeoutError", "TcpTimeoutException") and generous:
+                viol.append({"mechanism": "fault-free-timeout", "detail": "%s with (T,R,X)=(%r,%r,%r) against a cooperating, instantaneous device timed out: %s" % (op, case["T"], case["R"], case["X"], ref.brief(150))})
             if ref.exc_name() not in ("AdbTimeoutError", "TcpTimeoutException"):
                 viol.append({"mechanism": "fault-free-failed", "detail": "%s with (T,R,X)=(%r,%r,%r) against a cooperating device raised %s" % (op, case["T"], case["R"], case["X"], ref.brief(150))})
     finally:
